@@ -22,6 +22,7 @@ def run(ctx: Ctx, chk) -> None:
     chk.run_rule(atom1, ctx)
     chk.run_rule(iter1, ctx)
     chk.run_rule(mut1, ctx)
+    chk.run_rule(sleep1, ctx)
 
 
 def _def_nodes(g: CFG, names: set[str]):
@@ -278,7 +279,7 @@ def iter1(ctx: Ctx, chk) -> None:
                 chk.ok(rule, k, "no await inside the loop", ctx.loc(f, fl.loop))
         else:
             src = sb.snapshot_source(ctx, fl)
-            if src is not None and sb.reads_buffer(src, "set_messages"):
+            if src is not None and sb.reads_buffer(src, "set_messages", ctx, f):
                 chk.ok(rule, k, f"iterates a snapshot `{norm(src)[:70]}`", ctx.loc(f, fl.loop))
             else:
                 raise AnalysisError(f"ITER-1: flush in {f.fq} iterates `{norm(fl.snapshot)}` whose origin is not recognised")
@@ -302,3 +303,39 @@ def mut1(ctx: Ctx, chk) -> None:
                 else:
                     chk.ok(rule, f"{f.fq}::{attr}", f"entries bound as {sorted(names)} are only read", f.where, sample=n <= 2)
     chk.floor(rule, "functions binding buffer entries", n, 1)
+
+
+def sleep1(ctx: Ctx, chk) -> None:
+    rule = "SLEEP-1"
+    chk.rule(rule, "a wake handler marks the node sleeping=True before it starts the flush and never stores another value: while the flush is suspended in a write, a concurrent send for that node is parked (and found by the re-validation) instead of overtaking the older value that is still being flushed")
+    from .common import callee_names
+
+    flush_fqs = {f.fq for f in sb.flush_functions(ctx)}
+    n = 0
+    for f in ctx.prog.all_functions():
+        if f.fq in flush_fqs:
+            continue
+        calls = [c for c in ctx.own_nodes(f) if isinstance(c, ast.Call) and isinstance(c.func, ast.Attribute) and isinstance(c.func.value, ast.Name) and callee_names(ctx, f, c) & flush_fqs]
+        if not calls:
+            continue
+        g = CFG(f.node)
+        stores = []
+        for x in ctx.own_nodes(f):
+            if isinstance(x, (ast.Assign, ast.AnnAssign, ast.AugAssign)):
+                targets = x.targets if isinstance(x, ast.Assign) else [x.target]
+                if any(isinstance(t, ast.Attribute) and t.attr == "sleeping" for t in targets):
+                    stores.append(x)
+        for c in calls:
+            n += 1
+            chk.instance(rule)
+            k = fkey(f, c) + "::sleeping"
+            bad = [x for x in stores if not (isinstance(x, ast.Assign) and isinstance(x.value, ast.Constant) and x.value.value is True)]
+            cnodes = g.nodes_of(sb._stmt(ctx, f, c))
+            dom = [x for x in stores if x not in bad and all(any(g.dominates(sn, cn_) for sn in g.nodes_of(x)) for cn_ in cnodes)]
+            if bad:
+                chk.refute(rule, k, f"`{norm(bad[0])}` in {f.qualname}: the node is not marked sleeping while its parked commands are being written, so a concurrent send is written at once and the older parked value is written after it (the last value written is not the last value sent)", ctx.loc(f, bad[0]))
+            elif not dom:
+                chk.refute(rule, k, f"the flush started by `{norm(c)[:60]}` is not preceded by `sleeping = True` on every path", ctx.loc(f, c))
+            else:
+                chk.ok(rule, k, f"`{norm(dom[0])}` dominates the flush; no other value is stored", ctx.loc(f, c))
+    chk.floor(rule, "flush call sites", n, 2)
